@@ -179,7 +179,10 @@ def generate(run_seed):
                     tv = [c["values"] for c in tnode["props"] if c["name"] == nm][0]
                     first = tv[0] if isinstance(tv, list) else tv
                     own_v = {int: 7, float: 7.5, str: "own"}[type(first)]
-                    lnode["props"].append({"name": nm, "values": own_v, "unit": None})
+                    # the namesake may differ in a describing attribute: links are resolved
+                    # leniently (merge with strict=False), all the way down
+                    lnode["props"].append({"name": nm, "values": own_v,
+                                           "unit": rng.choice([None, None, "kOhm"])})
             lnode["secs"].append({"name": "own", "type": "t1", "props": [], "secs": []})
         # refresh the node table: the linker's old children are gone
         nodes = paths_of(main)
